@@ -238,6 +238,11 @@ t2data_sections = [
     'ELEME', 'CONNE', 'MESHM', 'GENER', 'SHORT', 'FOFT',
     'COFT', 'GOFT', 'INCON', 'INDOM']
 
+# sections whose items are looked up, when read, in other sections (which must come first):
+t2data_section_prerequisites = {
+    'ELEME': ['ROCKS'], 'CONNE': ['ELEME'], 'SHORT': ['ELEME', 'CONNE', 'GENER'],
+    'FOFT': ['ELEME'], 'COFT': ['ELEME', 'CONNE'], 'GOFT': ['ELEME']}
+
 t2_extra_precision_sections = ['ROCKS', 'ELEME', 'CONNE', 'RPCAP', 'GENER']
 
 class t2data(object):
@@ -417,6 +422,21 @@ class t2data(object):
         """Determines an appropriate position to insert the specified section
         in the internal list of data file sections.
         """
+        index = self.default_section_insertion_index(section)
+        # if the existing sections are not in the default order, the new one
+        # must still go before the sections that refer to its items when they
+        # are read, and after the sections its own items refer to:
+        before = [i for i, s in enumerate(self._sections)
+                  if section in t2data_section_prerequisites.get(s, [])]
+        if before: index = min(index, min(before))
+        after = [i + 1 for i, s in enumerate(self._sections)
+                 if s in t2data_section_prerequisites.get(section, [])]
+        if after: index = max(index, max(after))
+        return index
+
+    def default_section_insertion_index(self, section):
+        """Position of the specified section in the internal list of data
+        file sections, going by the default section order alone."""
         try:
             listindex = t2data_sections.index(section)
             if listindex == 0: return 0  # SIMUL section
@@ -1402,7 +1422,7 @@ class t2data(object):
                 keyword = line[0: 5].strip()
                 if keyword in mesh_sections:
                     read_fn[keyword](infile)
-                    self._sections.append(keyword)
+                    self.insert_section(keyword)
             else: more = False
 
     def read_binary_meshfiles(self):
